@@ -233,9 +233,16 @@ def cells_eq(a, b):
     return And(*conds)
 
 
+_OPAQUE_EQ = [0]
+
+
 def str_eq(x, y):
     if isinstance(x, bytes) and isinstance(y, bytes):
         return x == y
+    if type(x).__name__ == 'Opaque' or type(y).__name__ == 'Opaque':
+        # a text the engine does not model (e.g. the result of an unsupported format verb): the outcome is unknown
+        _OPAQUE_EQ[0] += 1
+        return z3.Bool('opaque_text_eq_%d' % _OPAQUE_EQ[0])
     if isinstance(x, DecStr) or isinstance(y, DecStr):
         if isinstance(x, bytes):
             x = dec_of_bytes(x)
